@@ -279,6 +279,77 @@ func init() {
 			}
 			w.stats.Inc("probe.P2-threshold-count")
 		}
+		// every policy's bytes are the specified layout; a bare leaf's address is the hash of those bytes
+		{
+			var rw ref.W
+			rw.Policy(pol)
+			if !bytes.Equal(encAny(pol), rw.B) {
+				w.violate("C14", "policy-encoding", fmt.Sprintf("policy %v: encoding differs from the specified layout", pol))
+				return
+			}
+			var h32 types.Hash256
+			copy(h32[:], sim.HashBytes("c14-leaf", uint64(t.Choose(1<<16)), 1, 32))
+			leaves := []types.SpendPolicy{types.PolicyHash(h32), types.PolicyPublicKey(types.PublicKey(h32)), types.PolicyAbove(uint64(t.Choose(1 << 20))), types.PolicyAfter(time.Unix(int64(t.Choose(1<<31)), 0)), types.PolicyOpaque(types.PolicyHash(h32))}
+			seen := map[types.Address]string{}
+			for _, lp := range leaves {
+				var lw ref.W
+				lw.Policy(lp)
+				if !bytes.Equal(encAny(lp), lw.B) {
+					w.violate("C14", "policy-encoding", fmt.Sprintf("bare policy %v: encoding differs from the specified layout", lp))
+					return
+				}
+				var back types.SpendPolicy
+				d := types.NewBufDecoder(lw.B)
+				back.DecodeFrom(d)
+				if d.Err() != nil || back.String() != lp.String() {
+					w.violate("C14", "policy-roundtrip", fmt.Sprintf("bare policy %v decodes as %v (%v)", lp, back, d.Err()))
+					return
+				}
+				if _, opaque := lp.Type.(types.PolicyTypeOpaque); !opaque {
+					if want := types.Address(ref.Sum(append([]byte("sia/address|"), lw.B...))); lp.Address() != want {
+						w.violate("C14", "leaf-address", fmt.Sprintf("bare policy %v has address %v, the hash of its encoding is %v", lp, lp.Address(), want))
+						return
+					}
+				}
+				if other, dup := seen[lp.Address()]; dup && other != lp.String() {
+					if _, opaque := lp.Type.(types.PolicyTypeOpaque); !opaque {
+						w.violate("C14", "leaf-address", fmt.Sprintf("policies %v and %s have the same address", lp, other))
+						return
+					}
+				}
+				seen[lp.Address()] = lp.String()
+			}
+			w.stats.Inc("probe.P2-leaf-encodings")
+		}
+		// legacy conditions far larger than any threshold may be: the limit on sub-policies does not count keys
+		if t.Chance(1, 30) {
+			k := pick(t, 1024, 1025, 1100)
+			uc := types.UnlockConditions{SignaturesRequired: uint64(k)}
+			var sigHash types.Hash256
+			copy(sigHash[:], sim.HashBytes("c14-big-uc", uint64(k), 0, 32))
+			var sigs []types.Signature
+			for i := 0; i < k; i++ {
+				key := deriveKey("c14-big-uc", uint64(i), 1)
+				uc.PublicKeys = append(uc.PublicKeys, key.PublicKey().UnlockKey())
+				sigs = append(sigs, key.SignHash(sigHash))
+			}
+			big := types.SpendPolicy{Type: types.PolicyTypeUnlockConditions(uc)}
+			verr := big.Verify(c.height, c.median, sigHash, sigs, nil)
+			if want := ref.PolicySatisfied(big, c.height, c.median, sigHash, sigs, nil); (verr == nil) != want {
+				w.violate("C14", "verify-disagrees", fmt.Sprintf("legacy conditions with %d keys, all required and all signing: Verify returned %v", k, verr))
+				return
+			}
+			sp := types.SatisfiedPolicy{Policy: big, Signatures: sigs}
+			enc := encAny(sp)
+			var back types.SatisfiedPolicy
+			d := types.NewBufDecoder(enc)
+			back.DecodeFrom(d)
+			if d.Err() != nil || !bytes.Equal(encAny(back), enc) {
+				w.violate("C14", "satisfied-policy-roundtrip", fmt.Sprintf("a satisfied policy that Verify accepts (legacy conditions, %d keys and signatures) does not survive decode(encode()): %v", k, d.Err()))
+				return
+			}
+			w.stats.Inc("probe.P2-big-conditions")
+		}
 		// the standard single-key forms are shorthands, not other addresses
 		{
 			var pk types.PublicKey
@@ -307,7 +378,7 @@ func init() {
 			for i := 0; i < t.Range(0, 3); i++ {
 				key := make([]byte, pick(t, 32, 32, 31, 33, 0, 64))
 				copy(key, sim.HashBytes("c14-uk", uint64(i), uint64(t.Choose(50)), len(key)))
-				uc.PublicKeys = append(uc.PublicKeys, types.UnlockKey{Algorithm: pick(t, types.SpecifierEd25519, types.NewSpecifier("blank"), types.NewSpecifier("ed448"), types.Specifier{}, types.SpecifierEntropy), Key: key})
+				uc.PublicKeys = append(uc.PublicKeys, types.UnlockKey{Algorithm: pick(t, types.SpecifierEd25519, types.NewSpecifier("blank"), types.NewSpecifier("ed448"), types.Specifier{}, types.SpecifierEntropy, types.Specifier{'e', 'd', '2', '5', '5', '1', '9', 0, 0, 0, 0, 0, 0, 0, 0, 1}, types.Specifier{'a', 0, 'b'}), Key: key})
 			}
 			pol := types.SpendPolicy{Type: types.PolicyTypeUnlockConditions(uc)}
 			if a, b, c := pol.Address(), uc.UnlockHash(), ref.UnlockHash(uc); a != c || b != c {
